@@ -5,17 +5,23 @@ package channelmigration
 // A package of the runner module (exported API only): a real metadata DB (Pebble) in a
 // temporary directory and the real slot state machine over it.  Every modelled command is
 // encoded with the exported fsm.Encode*Command function of its type and applied as a
-// ONE-command multiraft ApplyBatch (several channel-migration commands in one apply batch
-// is a known finding of C13 and is not what C17 is about).  After every command the apply
-// result, the runtime meta row, every task row and the reported active task are compared
-// with the specification.
+// ONE-command multiraft ApplyBatch; the specification's Batch2 steps are applied as ONE
+// apply batch of two commands (creates, plain or guarded, for the same or different task
+// ids; a create next to a runtime-meta upsert; a create next to a create for another
+// channel of the hash slot).  Batches that mix create / advance / cleanup commands are the
+// known finding channel-migration-multi-command-batch of C13 and stay outside.  After every
+// step the apply result(s), the runtime meta row, every task row and the reported active
+// task are compared with the specification, and "at most one active task row" is checked
+// on the rows directly.
 //
 //	(a) TLC behaviours of specs/ChannelMigration/Sim.tla are replayed step by step;
 //	(b) a seeded random driver issues commands built from the rows it reads back
 //	    (fresh / stale guards, fresh / stale proof fields) and records what it observed
 //	    for TLC to validate against the module with the C17 properties switched on;
 //	(c) one scripted probe looks for the known deviation "an expired fence can be reset
-//	    to a pre-cutover phase after the cutover, after which the task can be aborted".
+//	    to a pre-cutover phase after the cutover, after which the task can be aborted";
+//	(d) one scripted probe puts the creates of two racing planners (two task ids, one
+//	    channel) into one apply batch, in every guard combination.
 
 import (
 	"context"
@@ -123,21 +129,35 @@ func (s *sut) shard() *metadb.ShardStore { return s.db.ForHashSlot(hashSlot) }
 
 // submit applies one command as a one-command apply batch and maps the apply result.
 func (s *sut) submit(data []byte) (string, []byte) {
-	s.idx++
-	res, err := s.sm.ApplyBatch(bg, []multiraft.Command{{SlotID: slotID, HashSlot: hashSlot, Index: s.idx, Term: 1, Data: data}})
-	if err != nil {
-		return "error: " + err.Error(), nil
+	rs, raw := s.submitBatch(data)
+	return rs[0], raw[0]
+}
+
+// submitBatch applies the commands as ONE apply batch (consecutive log indexes, as the Raft
+// runtime delivers them) and maps every apply result.
+func (s *sut) submitBatch(datas ...[]byte) ([]string, [][]byte) {
+	cmds := make([]multiraft.Command, 0, len(datas))
+	for _, data := range datas {
+		s.idx++
+		cmds = append(cmds, multiraft.Command{SlotID: slotID, HashSlot: hashSlot, Index: s.idx, Term: 1, Data: data})
 	}
-	if len(res) != 1 {
-		return fmt.Sprintf("error: %d results", len(res)), nil
+	out, raw := make([]string, len(datas)), make([][]byte, len(datas))
+	res, err := s.sm.ApplyBatch(bg, cmds)
+	for i := range out {
+		switch {
+		case err != nil:
+			out[i] = "error: " + err.Error()
+		case len(res) != len(datas):
+			out[i] = fmt.Sprintf("error: %d results", len(res))
+		case string(res[i]) == fsm.ApplyResultOK:
+			out[i], raw[i] = "ok", res[i]
+		case string(res[i]) == fsm.ApplyResultStaleMeta:
+			out[i], raw[i] = "stale", res[i]
+		default:
+			out[i], raw[i] = "other", res[i]
+		}
 	}
-	switch string(res[0]) {
-	case fsm.ApplyResultOK:
-		return "ok", res[0]
-	case fsm.ApplyResultStaleMeta:
-		return "stale", res[0]
-	}
-	return "other", res[0]
+	return out, raw
 }
 
 func u64s(v any) []uint64 {
@@ -363,6 +383,108 @@ func nowAt(until int64, late bool) int64 {
 	return n
 }
 
+// encodeCreate: the plain create command (rg = "none") or the guarded one with guard g.
+func (s *sut) encodeCreate(id, rg string, g metadb.ChannelMigrationRuntimeGuard) []byte {
+	task := s.templateTask(id)
+	if rg == "none" {
+		return fsm.EncodeCreateChannelMigrationTaskCommand(task)
+	}
+	return fsm.EncodeCreateChannelMigrationTaskWithRuntimeGuardCommand(metadb.ChannelMigrationTaskCreate{Task: task, RuntimeGuard: g})
+}
+
+// encodeExt: a runtime-meta upsert from outside the migration, built on the row m its
+// proposer read.
+func encodeExt(k string, m metadb.ChannelRuntimeMeta) ([]byte, error) {
+	// the encoder canonicalises the row (a zero route generation would be derived from the
+	// epochs and then count as "given and older"), so the current generation is sent
+	c := m
+	c.WriteFenceToken, c.WriteFenceVersion, c.WriteFenceReason, c.WriteFenceUntilMS = "", 0, 0, 0
+	switch k {
+	case "le":
+		c.LeaderEpoch++
+	case "ce":
+		c.ChannelEpoch++
+	case "ld1", "ld2", "ld3", "ld4":
+		c.LeaderEpoch++
+		c.Leader = uint64(k[2] - '0')
+	case "fence":
+		c.WriteFenceToken, c.WriteFenceVersion, c.WriteFenceReason, c.WriteFenceUntilMS = "x", m.WriteFenceVersion+1, 2, baseMS+77000
+	default:
+		return nil, fmt.Errorf("unknown Ext kind %q", k)
+	}
+	return fsm.EncodeUpsertChannelRuntimeMetaCommand(c), nil
+}
+
+// otherChannel / encodeOther: the specification's "Other" batch command, the plain create of
+// one fixed task row for another channel of the same hash slot.
+func (s *sut) otherChannel() string { return s.ch + "-other" }
+func (s *sut) encodeOther() []byte {
+	return fsm.EncodeCreateChannelMigrationTaskCommand(metadb.ChannelMigrationTask{TaskID: "x1", Kind: metadb.ChannelMigrationKindLeaderTransfer,
+		Status: metadb.ChannelMigrationStatusPending, Phase: metadb.ChannelMigrationPhaseValidate, ChannelID: s.otherChannel(), ChannelType: chanType,
+		SourceNode: 1, TargetNode: 2, DesiredLeader: 2, BaseChannelEpoch: 10, BaseLeaderEpoch: 20, CreatedAtMS: baseMS, UpdatedAtMS: baseMS})
+}
+
+// applyBatch2 executes a Batch2 event: both commands, built on the rows read BEFORE the
+// batch (as two racing proposers would), in one apply batch.
+func (s *sut) applyBatch2(ev map[string]any, m metadb.ChannelRuntimeMeta) (map[string]any, map[string]any, error) {
+	cs, _ := ev["cs"].([]any)
+	if len(cs) != 2 {
+		return nil, nil, fmt.Errorf("Batch2 with %d commands", len(cs))
+	}
+	var datas [][]byte
+	other := false
+	for _, x := range cs {
+		c, _ := x.(map[string]any)
+		switch kit.Str(c, "a") {
+		case "Create":
+			datas = append(datas, s.encodeCreate(kit.Str(c, "t"), kit.Str(c, "rg"), s.runtimeGuard(kit.Map(c, "g"))))
+		case "Ext":
+			data, err := encodeExt(kit.Str(c, "k"), m)
+			if err != nil {
+				return nil, nil, err
+			}
+			datas = append(datas, data)
+		case "Other":
+			other = true
+			datas = append(datas, s.encodeOther())
+		default:
+			return nil, nil, fmt.Errorf("unknown batch command %q", kit.Str(c, "a"))
+		}
+	}
+	rs, _ := s.submitBatch(datas...)
+	r := "stale"
+	for _, x := range rs {
+		if x == "ok" {
+			r = "ok"
+		}
+	}
+	if other {
+		// infrastructure sanity: the other channel holds exactly its one task
+		if t, ok, err := s.shard().GetActiveChannelMigrationTask(bg, s.otherChannel(), chanType); err != nil || (ok && t.TaskID != "x1") {
+			return nil, nil, fmt.Errorf("other channel: active task %q, %v", t.TaskID, err)
+		}
+	}
+	p, err := s.proj()
+	if err != nil {
+		return nil, nil, err
+	}
+	res, _ := kit.Canon(map[string]any{"r": r, "rs": rs}).(map[string]any)
+	return res, p, nil
+}
+
+// activeRows: the ids of the task rows of the channel that are active (not terminal).
+// Property C17: at most one.
+func activeRows(proj map[string]any) []string {
+	var out []string
+	for _, id := range taskIDs {
+		t := kit.Map(kit.Map(proj, "tasks"), id)
+		if kit.Bool(t, "present") && !in(kit.Str(t, "status"), "completed", "failed", "aborted") {
+			out = append(out, id)
+		}
+	}
+	return out
+}
+
 // apply executes one event of the specification on the real state machine and returns
 // the reply and the projection afterwards.
 func (s *sut) apply(ev map[string]any) (map[string]any, map[string]any, error) {
@@ -376,6 +498,9 @@ func (s *sut) apply(ev map[string]any) (map[string]any, map[string]any, error) {
 	m, err := s.meta()
 	if err != nil {
 		return nil, nil, err
+	}
+	if a == "Batch2" {
+		return s.applyBatch2(ev, m)
 	}
 	if id != "" {
 		if t, ok, err = s.task(id); err != nil {
@@ -400,12 +525,7 @@ func (s *sut) apply(ev map[string]any) (map[string]any, map[string]any, error) {
 	res := map[string]any{}
 	switch a {
 	case "Create":
-		task := s.templateTask(id)
-		if kit.Str(ev, "rg") == "none" {
-			data = fsm.EncodeCreateChannelMigrationTaskCommand(task)
-		} else {
-			data = fsm.EncodeCreateChannelMigrationTaskWithRuntimeGuardCommand(metadb.ChannelMigrationTaskCreate{Task: task, RuntimeGuard: rg})
-		}
+		data = s.encodeCreate(id, kit.Str(ev, "rg"), rg)
 	case "Claim":
 		claimNow := baseMS + 10
 		if t.OwnerLeaseUntilMS > 0 {
@@ -486,24 +606,9 @@ func (s *sut) apply(ev map[string]any) (map[string]any, map[string]any, error) {
 		}
 		data = fsm.EncodeGarbageCollectTerminalChannelMigrationTasksCommand(metadb.ChannelMigrationTaskGCRequest{BeforeMS: before, Limit: int(kit.Int(ev, "lim"))})
 	case "Ext":
-		// the encoder canonicalises the row (a zero route generation would be derived from the
-		// epochs and then count as "given and older"), so the current generation is sent
-		c := m
-		c.WriteFenceToken, c.WriteFenceVersion, c.WriteFenceReason, c.WriteFenceUntilMS = "", 0, 0, 0
-		switch kit.Str(ev, "k") {
-		case "le":
-			c.LeaderEpoch++
-		case "ce":
-			c.ChannelEpoch++
-		case "ld1", "ld2", "ld3", "ld4":
-			c.LeaderEpoch++
-			c.Leader = uint64(kit.Str(ev, "k")[2] - '0')
-		case "fence":
-			c.WriteFenceToken, c.WriteFenceVersion, c.WriteFenceReason, c.WriteFenceUntilMS = "x", m.WriteFenceVersion+1, 2, baseMS+77000
-		default:
-			return nil, nil, fmt.Errorf("unknown Ext kind %q", kit.Str(ev, "k"))
+		if data, err = encodeExt(kit.Str(ev, "k"), m); err != nil {
+			return nil, nil, err
 		}
-		data = fsm.EncodeUpsertChannelRuntimeMetaCommand(c)
 	default:
 		return nil, nil, fmt.Errorf("unknown action %q", a)
 	}
@@ -606,6 +711,67 @@ var noProof = map[string]any{"fv": 0, "ce": 0, "le": 0, "ld": 0}
 type driver struct {
 	s   *sut
 	rng *rand.Rand
+	// batchEvery > 0: about one draw in batchEvery is a two-command apply batch
+	batchEvery int
+}
+
+// batchCmd / batch2 build a Batch2 event in the JSON shape of the specification: both
+// commands carry the guard their proposer derived from the row m read before the batch.
+func batchCmd(a, t, rg, k string, m metadb.ChannelRuntimeMeta) map[string]any {
+	g := "ok"
+	if a == "Create" && rg != "none" {
+		g = rg
+	}
+	return map[string]any{"a": a, "t": t, "rg": rg, "k": k, "g": guardOf(m, g)}
+}
+
+func (d *driver) extKind(m metadb.ChannelRuntimeMeta) string {
+	k := d.pick(allExts)
+	if k == "ld" {
+		// a new leader out of the ISR (the resolver would refuse a leader outside it)
+		k = "le"
+		var cands []int64
+		for _, n := range ints(m.ISR) {
+			if uint64(n) != m.Leader {
+				cands = append(cands, n)
+			}
+		}
+		if len(cands) > 0 {
+			k = fmt.Sprintf("ld%d", cands[d.rng.Intn(len(cands))])
+		}
+	}
+	return k
+}
+
+func (d *driver) batch2(m metadb.ChannelRuntimeMeta) map[string]any {
+	crg := func() string {
+		switch d.rng.Intn(4) {
+		case 0:
+			return "none"
+		case 1:
+			return d.pick(allRGs[1:])
+		}
+		return "ok"
+	}
+	a, b := taskIDs[0], taskIDs[1]
+	if d.rng.Intn(2) == 0 {
+		a, b = b, a
+	}
+	var c1, c2 map[string]any
+	switch r := d.rng.Intn(100); {
+	case r < 40: // two planners: different task ids
+		c1, c2 = batchCmd("Create", a, crg(), "", m), batchCmd("Create", b, crg(), "", m)
+	case r < 50: // the same task id twice
+		c1, c2 = batchCmd("Create", a, crg(), "", m), batchCmd("Create", a, crg(), "", m)
+	case r < 75: // next to an upsert from outside: the guard may be fresh only before / only after it
+		c1, c2 = batchCmd("Create", a, d.pick([]string{"none", "ok", "le", "ce", "fver"}), "", m), batchCmd("Ext", "", "", d.extKind(m), m)
+	default: // next to a create for another channel
+		c1, c2 = batchCmd("Create", a, crg(), "", m), batchCmd("Other", "", "", "", m)
+	}
+	if c2["a"] != "Create" && d.rng.Intn(2) == 0 {
+		c1, c2 = c2, c1
+	}
+	return kit.Ev("Batch2", "cs", []any{c1, c2})
 }
 
 func (d *driver) pick(xs []string) string { return xs[d.rng.Intn(len(xs))] }
@@ -718,6 +884,9 @@ func (d *driver) next() (map[string]any, error) {
 			return anyID
 		}
 		return xs[d.rng.Intn(len(xs))]
+	}
+	if d.batchEvery > 0 && d.rng.Intn(d.batchEvery) == 0 {
+		return d.batch2(m), nil
 	}
 	r := d.rng.Intn(100)
 	if d.rng.Intn(4) == 0 { // a quarter of the other draws is a workflow step as well
@@ -891,6 +1060,65 @@ func probeLateReset(s *sut, caseNo int, rep *kit.Report, id string) {
 	rep.Extra("late_reset_after_cutover", "reset accepted; abort "+r2)
 }
 
+// ---- the scripted probe for two creates in one apply batch -------------------------------------
+
+// probeSameBatchCreates: two planners propose a migration for the same channel under
+// different task ids and Raft delivers both creates in ONE apply batch.  Property C17: at
+// most one of the two rows may be active afterwards, the reported active task is that row,
+// and a create that answered "ok" is stored.  Every combination of plain / guarded creates,
+// both orders, over rotating task templates and initial meta rows.  The oracle is the
+// property itself (no specification involved); the model-based stages reach the same
+// batches through Batch2 steps of TLC-generated behaviours.
+func probeSameBatchCreates(s *sut, caseNo *int, rep *kit.Report, id string) {
+	n := 0
+	for _, rgs := range [][2]string{{"none", "none"}, {"ok", "ok"}, {"none", "ok"}, {"ok", "none"}} {
+		for _, order := range [][2]string{{"t1", "t2"}, {"t2", "t1"}} {
+			*caseNo++
+			cfg, _ := kit.Canon(map[string]any{"tmpl": map[string]any{"t1": simTmpls[n%3], "t2": simTmpls[(n+1)%4]}, "meta": simMetas[n%3]}).(map[string]any)
+			n++
+			if err := s.begin(*caseNo, cfg); err != nil {
+				rep.Infra("same-batch-creates probe: %v", err)
+				return
+			}
+			st0, err := s.proj()
+			if err != nil {
+				rep.Infra("same-batch-creates probe: %v", err)
+				return
+			}
+			m, _ := s.meta()
+			ev, _ := kit.Canon(kit.Ev("Batch2", "cs", []any{batchCmd("Create", order[0], rgs[0], "", m), batchCmd("Create", order[1], rgs[1], "", m)})).(map[string]any)
+			res, proj, err := s.apply(ev)
+			if err != nil {
+				rep.Infra("same-batch-creates probe %s: %v", kit.JSON(ev), err)
+				return
+			}
+			rep.Cover("Batch2")
+			ev["res"] = res
+			replay := map[string]any{"steps": []any{map[string]any{"ev": kit.Ev("Init", "cfg", cfg), "st": st0}, map[string]any{"ev": ev, "st": proj}}}
+			act := activeRows(proj)
+			rs, _ := res["rs"].([]any)
+			bad := ""
+			switch {
+			case len(act) > 1:
+				bad = fmt.Sprintf("two creates for one channel in one apply batch answered %v and left %d active task rows %v (reported active task %q)", rs, len(act), act, kit.Str(proj, "active"))
+			case len(act) == 1 && kit.Str(proj, "active") != act[0]:
+				bad = fmt.Sprintf("the active task row is %s, the reported active task is %q", act[0], kit.Str(proj, "active"))
+			default:
+				for i, r := range rs {
+					if r == "ok" && !in(order[i], act...) {
+						bad = fmt.Sprintf("create of %s answered ok but its row is not an active task row (active rows %v)", order[i], act)
+					}
+				}
+			}
+			if bad != "" {
+				rep.Violate(id, "one-active", bad, replay)
+				return
+			}
+		}
+	}
+	rep.Extra("same_batch_creates_probe", fmt.Sprintf("%d batches, at most one active row each", n))
+}
+
 // ---- the test -------------------------------------------------------------------------------
 
 func TestVerifChannelMigration(t *testing.T) {
@@ -964,6 +1192,11 @@ func TestVerifChannelMigration(t *testing.T) {
 			if kit.Str(res, "r") == "ok" {
 				replayAccepted[kit.Str(st.Ev, "a")]++
 			}
+			if act := activeRows(proj); len(act) > 1 {
+				rep.Violate(id, "one-active", fmt.Sprintf("step %d %s answered %s and left %d active task rows %v on one channel", si+1, kit.JSON(kit.CloneEv(st.Ev)), kit.JSON(res), len(act), act),
+					map[string]any{"behaviour": b, "step": si + 1, "observed": res, "observed_state": proj})
+				break
+			}
 			if d := kit.Diff(st.Ev["res"], res); d != "" {
 				rep.Violate(id, "reply", fmt.Sprintf("step %d %s: apply result %s", si+1, kit.JSON(kit.CloneEv(st.Ev)), d),
 					map[string]any{"behaviour": b, "step": si + 1, "observed": res, "observed_state": proj})
@@ -987,9 +1220,17 @@ func TestVerifChannelMigration(t *testing.T) {
 	rng := env.Rand()
 	d := &driver{s: s, rng: rng}
 	traces := env.Pick(120, 500)
+	// the last `batchTraces` traces mix two-command apply batches into the command stream
+	// (about every fifth draw); the ones before are one-command batches only
+	batchTraces := env.Pick(40, 150)
 	accepted := map[string]int{}
-	for tr := 0; tr < traces; tr++ {
+	batchReplies := map[string]int{}
+	for tr := 0; tr < traces+batchTraces; tr++ {
 		caseNo++
+		d.batchEvery = 0
+		if tr >= traces {
+			d.batchEvery = 5
+		}
 		cfg := randomCfg(rng)
 		if err := s.begin(caseNo, cfg); err != nil {
 			rep.Infra("trace %d: %v", tr, err)
@@ -1002,6 +1243,10 @@ func TestVerifChannelMigration(t *testing.T) {
 		}
 		rec.Begin(map[string]any{"cfg": cfg}, st)
 		steps := 25 + rng.Intn(40)
+		if tr >= traces {
+			steps = 12 + rng.Intn(24)
+		}
+		var hist []any
 		for i := 0; i < steps; i++ {
 			ev, err := d.next()
 			if err != nil {
@@ -1022,12 +1267,26 @@ func TestVerifChannelMigration(t *testing.T) {
 			if kit.Str(res, "r") == "ok" {
 				accepted[kit.Str(ev, "a")]++
 			}
+			if kit.Str(ev, "a") == "Batch2" {
+				batchReplies[kit.JSON(res["rs"])]++
+			}
+			hist = append(hist, map[string]any{"ev": ev, "st": proj})
+			if act := activeRows(proj); len(act) > 1 {
+				rep.Violate(id, "one-active", fmt.Sprintf("driver trace %d step %d %s left %d active task rows %v on one channel", tr, i, kit.JSON(ev), len(act), act),
+					map[string]any{"cfg": cfg, "steps": hist})
+				finish()
+				return
+			}
 		}
 	}
+	rep.Extra("driver_batch2_replies", batchReplies)
 	rep.Extra("driver_accepted", accepted)
 
 	// ---- the known deviation ----
 	caseNo++
 	probeLateReset(s, caseNo, rep, id)
+
+	// ---- two racing creates in one apply batch ----
+	probeSameBatchCreates(s, &caseNo, rep, id)
 	finish()
 }
